@@ -33,7 +33,8 @@ META = {
                    "expression; per-scenario stores of mutable scheduling state must be fresh copies; the scenario loop "
                    "runs prepare/schedule/finish with one index and prepare reaches the reset of every task and resource."
                    " Also: exits of the scenario loop and post-dominance of finishScenario, completeness / aliasing of Limit.copy, the shared-container census, binding of defaulted scenario parameters, per-scenario loops that run to completion, scenario indices never tested for truthiness, and propagation of an override to nested scenarios."
-                   " Round 3: single-slot attribute memos (a value computed from the scenario kept on an object shared by all scenarios, or validated without comparing the scenario).",
+                   " Round 3: single-slot attribute memos (a value computed from the scenario kept on an object shared by all scenarios, or validated without comparing the scenario)."
+                   " Round 4: no literal scenario index in attribute inheritance, override bookkeeping not keyed by local id.",
     "assumptions": [],
 }
 
